@@ -990,3 +990,336 @@ Qed.
 Lemma client_recv_total_args jv qt rs connected w :
   forallb wire_resp rs = true -> snd (ClientRecvModel.run jv qt connected rs) <> Panic w.
 Proof. apply client_recv_total_lemma. Qed.
+
+(** * The metadata refresh after patched ingest never panics
+
+    Invariant [meta_typed]: a leaf stored at [meta; k] for a registered name [k]
+    holds, as its first value, the kind generateMetaUpdates asserts. *)
+
+Definition kind_ok (k : string) (v : tv) : bool :=
+  if String.eqb k md_sync || String.eqb k md_connected then is_bool v
+  else if String.eqb k md_connected_addr || String.eqb k md_connect_error then is_str v
+  else if name_in k md_int_names then is_int v
+  else true.
+
+Definition meta_typed (tr : tree notif) : Prop :=
+  forall k n, lookup tr [md_root; k] = Some n -> kind_ok k (first_val n) = true.
+
+Definition tstate_ok (t : tstate) : Prop := tree_ok (ts_tree t) /\ meta_typed (ts_tree t).
+
+Lemma meta_check_kind fl t k v t' :
+  f_nilval fl = false -> f_intmeta fl = false ->
+  meta_check fl t [md_root; k] k v = (t', Ok tt) -> kind_ok k v = true.
+Proof.
+  intros F1 F2. unfold meta_check, kind_ok. rewrite F1, F2. cbn [negb andb List.length Nat.eqb].
+  destruct (String.eqb k md_sync || String.eqb k md_connected).
+  - destruct v; intros H; try discriminate H; reflexivity.
+  - destruct (String.eqb k md_connected_addr || String.eqb k md_connect_error).
+    + destruct v; intros H; try discriminate H; reflexivity.
+    + destruct (name_in k md_int_names); [|reflexivity].
+      destruct v; intros H; try discriminate H; reflexivity.
+Qed.
+
+Lemma update_pre_kind fl t k v t' :
+  f_nilval fl = false -> f_intmeta fl = false ->
+  update_pre fl t [md_root; k] v = (t', Ok tt) -> kind_ok k v = true.
+Proof.
+  intros F1 F2. unfold update_pre. change (String.eqb md_root md_root) with true. cbn [negb].
+  apply meta_check_kind; assumption.
+Qed.
+
+Lemma first_val_unit n u us : n_upd n = u :: us -> first_val n = u_val u.
+Proof. unfold first_val. now intros ->. Qed.
+
+Lemma meta_typed_store tr tr' p n u us :
+  wf_tree tr -> meta_typed tr -> n_upd n = u :: us ->
+  (forall k, p = [md_root; k] -> kind_ok k (u_val u) = true) ->
+  CTreeModel.add tr p n = Some tr' -> meta_typed tr'.
+Proof.
+  intros Hwf Hm Hu Hk Ha k m Hl.
+  destruct (add_spec tr tr' p n Hwf Ha) as [_ Hs]. rewrite Hs in Hl.
+  destruct (path_eqb_spec [md_root; k] p) as [E|E].
+  - inversion Hl; subst m. rewrite (first_val_unit _ _ _ Hu). apply Hk. now symmetry.
+  - now apply Hm.
+Qed.
+
+Lemma gnmi_update1_tstate_ok fl t n :
+  f_nilval fl = false -> f_intmeta fl = false ->
+  tstate_ok t -> n_upd n <> [] -> wire_notif n = true ->
+  tstate_ok (fst (gnmi_update1 fl t n)).
+Proof.
+  intros F1 F2 [Hok Hm] Hne Hw.
+  split; [apply gnmi_update1_ok; [assumption|split; assumption]|].
+  unfold gnmi_update1. destruct (n_upd n) as [|u us] eqn:Eu; [congruence|].
+  destruct (join_path _ _) as [p|e|w]; try assumption.
+  destruct (update_pre fl t p (u_val u)) as [t1 o] eqn:Ep.
+  assert (Ht1 : ts_tree t1 = ts_tree t).
+  { replace t1 with (fst (update_pre fl t p (u_val u))) by now rewrite Ep. apply update_pre_tree. }
+  destruct o as [[]|e|w]; cbn [fst]; try (rewrite Ht1; assumption).
+  assert (Hk : forall k, p = [md_root; k] -> kind_ok k (u_val u) = true).
+  { intros k ->. eapply update_pre_kind; eauto. }
+  destruct Hok as [Hwf Hst].
+  unfold update_leaf. rewrite Ht1.
+  destruct (CTreeModel.get (ts_tree t) p) as [[old|cs]|]; cbn [fst]; try (rewrite Ht1; assumption).
+  - destruct (Z.ltb _ _); cbn [fst]; [rewrite Ht1; assumption|].
+    destruct (_ && _); cbn [fst]; [rewrite Ht1; assumption|].
+    assert (Hset : meta_typed (tree_set (ts_tree t) p n)).
+    { unfold tree_set. destruct (CTreeModel.add (ts_tree t) p n) as [tr'|] eqn:Ea; [|assumption].
+      eapply meta_typed_store; eauto. }
+    destruct (n_atomic n); cbn [fst ts_tree]; [assumption|].
+    destruct (n_upd old); cbn [fst ts_tree]; [assumption|].
+    destruct (equal_gen _ _ _); cbn [fst ts_tree]; assumption.
+  - destruct (CTreeModel.add (ts_tree t) p n) as [tr'|] eqn:Ea; cbn [fst ts_tree]; [|rewrite Ht1; assumption].
+    eapply meta_typed_store; eauto.
+Qed.
+
+Lemma meta_typed_delete tr q c : wf_tree tr -> meta_typed tr -> meta_typed (fst (delete_cond tr q c)).
+Proof.
+  intros Hwf Hm k m Hl. destruct (delete_spec tr q c Hwf) as (_ & Hs & _).
+  rewrite Hs in Hl. unfold sel in Hl.
+  destruct (lookup tr [md_root; k]) as [v|] eqn:E; [|discriminate].
+  destruct (qmatch q [md_root; k] && c v); [discriminate|]. inversion Hl; subst. now apply Hm.
+Qed.
+
+Lemma gnmi_remove_tstate_ok fl t n : tstate_ok t -> tstate_ok (fst (gnmi_remove fl t n)).
+Proof.
+  intros [Hok Hm]. split; [now apply gnmi_remove_ok|].
+  destruct Hok as [Hwf _]. unfold gnmi_remove.
+  destruct (n_del n) as [|d ds]; [assumption|].
+  destruct (join_path _ _) as [p|e|w]; try assumption.
+  destruct p as [|p0 [|k r]].
+  - destruct (f_idx fl); cbn [fst ts_tree]; [assumption|now apply meta_typed_delete].
+  - destruct (String.eqb p0 md_root); [destruct (f_idx fl)|]; cbn [fst ts_tree];
+      try assumption; now apply meta_typed_delete.
+  - destruct (String.eqb p0 md_root); cbn [fst ts_tree]; [destruct (String.eqb k md_connect_error)|];
+      cbn [fst ts_tree]; now apply meta_typed_delete.
+Qed.
+
+(** any per-target invariant kept by gnmiUpdate and gnmiRemove is kept by Target.GnmiUpdate *)
+Lemma target_preserves fl (P : tstate -> Prop) :
+  (forall t n, P t -> n_upd n <> [] -> wire_notif n = true -> P (fst (gnmi_update1 fl t n))) ->
+  (forall t n, P t -> P (fst (gnmi_remove fl t n))) ->
+  forall t n, P t -> wire_notif n = true -> P (fst (target_gnmi_update fl t n)).
+Proof.
+  intros HU HR t n Ht Hw.
+  assert (L1 : forall r, fst (lift1 r) = fst r) by (intros [t0 [x|e|w]]; reflexivity).
+  assert (FU : forall us a, incl us (n_upd n) -> P (a_t a) ->
+            P (a_t (fold_left (multi_update_step fl n) us a))).
+  { induction us as [|u us IH]; intros a Hi Ha; cbn [fold_left]; [assumption|].
+    apply IH; [intros x Hx; apply Hi; now right|].
+    unfold multi_update_step. destruct (a_panic a); [assumption|].
+    pose proof (HU (a_t a) (clone_with_update n u) Ha) as H.
+    assert (H' : P (fst (gnmi_update1 fl (a_t a) (clone_with_update n u)))).
+    { apply H; [cbn; discriminate|apply wire_clone; auto; apply Hi; now left]. }
+    destruct (gnmi_update1 fl (a_t a) (clone_with_update n u)) as [t' [x|e|w]]; exact H'. }
+  assert (FD : forall ds a, P (a_t a) -> P (a_t (fold_left (multi_delete_step fl n) ds a))).
+  { induction ds as [|d ds IH]; intros a Ha; cbn [fold_left]; [assumption|].
+    apply IH. unfold multi_delete_step. destruct (a_panic a); [assumption|].
+    pose proof (HR (a_t a) (clone_with_delete n d) Ha) as H'.
+    destruct (gnmi_remove fl (a_t a) (clone_with_delete n d)) as [t' [x|e|w]]; exact H'. }
+  assert (Hm : P (a_t (fold_left (multi_delete_step fl n) (n_del n)
+                         (fold_left (multi_update_step fl n) (n_upd n) (Acc t [] None))))).
+  { apply FD. apply FU; [apply incl_refl|exact Ht]. }
+  unfold target_gnmi_update. destruct (n_atomic n).
+  - destruct (n_del n); [|exact Ht]. destruct (n_upd n) eqn:Eu; [exact Ht|].
+    rewrite L1. apply HU; auto. rewrite Eu; discriminate.
+  - destruct (n_upd n) as [|u [|u2 us]] eqn:Eu; destruct (n_del n) as [|d [|d2 ds]] eqn:Ed;
+      cbn [fst]; try exact Hm.
+    + rewrite L1. apply HR; exact Ht.
+    + rewrite L1. apply HU; auto. rewrite Eu; discriminate.
+Qed.
+
+Definition st_wf2 (c : cstate) : Prop :=
+  forall k t, In (k, t) c -> k <> "" /\ tstate_ok t.
+
+Lemma st_wf2_wf c : st_wf2 c -> st_wf c.
+Proof. intros H k t Hin. destruct (H k t Hin) as [Hk [Hok _]]. auto. Qed.
+
+Lemma st_wf2_new names : ~ In "" names -> st_wf2 (new_cstate names).
+Proof.
+  unfold new_cstate. intros Hn.
+  assert (H : forall l c, st_wf2 c -> ~ In "" l -> st_wf2 (fold_left (fun m k => aset k new_tstate m) l c)).
+  { induction l as [|k l IH]; cbn; intros c Hc Hl; [assumption|].
+    apply IH; [|tauto]. intros k' t' Hin. apply In_aset_weak in Hin as [E|Hin]; [|now apply Hc].
+    inversion E; subst. split; [intros ->; apply Hl; now left|].
+    split; [apply tree_ok_empty|]. intros k0 n0 H0; discriminate H0. }
+  apply H; [intros k t []|assumption].
+Qed.
+
+Theorem ingest_preserves_wf2 fl c n :
+  f_nilval fl = false -> f_intmeta fl = false ->
+  st_wf2 c -> wire_notif n = true -> st_wf2 (fst (ingest fl c n)).
+Proof.
+  intros F1 F2 Hc Hw. unfold ingest.
+  destruct (n_prefix n) as [pr|]; [|exact Hc].
+  destruct (assoc (gp_target pr) c) as [t|] eqn:Ea; [|exact Hc].
+  apply assoc_In in Ea. destruct (Hc _ _ Ea) as [Hk Hok].
+  cbn [fst]. intros k' t' Hin. apply In_aset_weak in Hin as [E|Hin]; [|now apply Hc].
+  inversion E; subst. split; [assumption|].
+  apply (target_preserves fl tstate_ok); auto.
+  - intros t0 n0 H0 Hne0 Hw0. now apply gnmi_update1_tstate_ok.
+  - intros t0 n0 H0. now apply gnmi_remove_tstate_ok.
+Qed.
+
+Lemma refresh_one_ok tr k f :
+  tree_ok tr -> (forall n, lookup tr [md_root; k] = Some n -> f (first_val n) = true) ->
+  refresh_one tr k f = false.
+Proof.
+  intros [_ Hst] Hf. unfold refresh_one, leaf_first_val.
+  destruct (lookup tr [md_root; k]) as [prev|] eqn:E; [|reflexivity].
+  destruct (Hst _ _ E) as [Hne _]. specialize (Hf prev eq_refl). unfold first_val in Hf.
+  destruct (n_upd prev); [congruence|]. now rewrite Hf.
+Qed.
+
+Lemma kind_ok_bool k v : In k md_bool_names -> kind_ok k v = is_bool v.
+Proof. intros [<-|[<-|[]]]; reflexivity. Qed.
+
+Lemma kind_ok_int k v : In k md_int_names -> kind_ok k v = is_int v.
+Proof.
+  cbn. intros H. repeat (destruct H as [<-|H]; [reflexivity|]). destruct H.
+Qed.
+
+Lemma existsb_false {A} (f : A -> bool) l : (forall x, In x l -> f x = false) -> existsb f l = false.
+Proof.
+  induction l as [|x l IH]; cbn; intros H; [reflexivity|].
+  rewrite H by now left. apply IH. intros; apply H; now right.
+Qed.
+
+Theorem refresh_total_lemma c : st_wf2 c -> refresh c = Ok tt.
+Proof.
+  intros Hc. unfold refresh. rewrite existsb_false; [reflexivity|].
+  intros [k t] Hin. destruct (Hc k t Hin) as [_ [Hok Hm]]. cbn [snd]. unfold refresh_panics.
+  rewrite (existsb_false _ md_bool_names), (existsb_false _ md_int_names).
+  - rewrite (refresh_one_ok _ md_connected_addr is_str Hok), (refresh_one_ok _ md_connect_error is_str Hok).
+    + now rewrite andb_false_r.
+    + intros n Hn. exact (Hm _ _ Hn).
+    + intros n Hn. exact (Hm _ _ Hn).
+  - intros x Hx. apply refresh_one_ok; [assumption|]. intros n Hn. rewrite <- (kind_ok_int x _ Hx). exact (Hm _ _ Hn).
+  - intros x Hx. apply refresh_one_ok; [assumption|]. intros n Hn. rewrite <- (kind_ok_bool x _ Hx). exact (Hm _ _ Hn).
+Qed.
+
+(** * A multi notification whose every update was rejected leaves the data unchanged *)
+
+Lemma multi_updates_errs fl n : forall us a,
+  let a' := fold_left (multi_update_step fl n) us a in
+  (List.length (a_errs a') <= List.length (a_errs a) + List.length us)%nat /\
+  (List.length (a_errs a') = (List.length (a_errs a) + List.length us)%nat ->
+   ts_tree (a_t a') = ts_tree (a_t a)).
+Proof.
+  induction us as [|u us IH]; intros a; cbn [fold_left List.length].
+  - split; [lia|reflexivity].
+  - destruct (IH (multi_update_step fl n a u)) as [H1 H2].
+    unfold multi_update_step in *. destruct (a_panic a) eqn:Ea.
+    + split; [lia|intros; lia].
+    + destruct (gnmi_update1 fl (a_t a) (clone_with_update n u)) as [t' [x|e|w]] eqn:Eg; cbn [a_errs a_t] in *.
+      * split; [lia|intros; lia].
+      * rewrite app_length in *. cbn [List.length] in *. split; [lia|].
+        intros E. rewrite H2 by lia. eapply gnmi_update1_err; eauto.
+      * split; [lia|intros; lia].
+Qed.
+
+Lemma target_errs_all fl t n t' es :
+  target_gnmi_update fl t n = (t', GErrs es) ->
+  List.length es = List.length (n_upd n) -> n_del n = [] -> ts_tree t' = ts_tree t.
+Proof.
+  assert (L1 : forall r, lift1 r <> (t', GErrs es)).
+  { intros [t0 [x|e0|w]]; cbn; discriminate. }
+  unfold target_gnmi_update. intros H Hl Hd. rewrite Hd in H.
+  destruct (n_atomic n).
+  - destruct (n_upd n); [discriminate H|]. exfalso. eapply L1; eauto.
+  - destruct (n_upd n) as [|u [|u2 us]] eqn:Eu.
+    + discriminate H.
+    + exfalso. eapply L1; eauto.
+    + cbn [fold_left] in H.
+      set (a1 := fold_left (multi_update_step fl n) us _) in H.
+      pose proof (multi_updates_errs fl n (u :: u2 :: us) (Acc t [] None)) as [_ H2].
+      cbn [fold_left] in H2. fold a1 in H2. cbn [a_errs a_t List.length] in H2.
+      destruct (a_panic a1); [discriminate H|].
+      destruct (a_errs a1) eqn:Ee; [discriminate H|]. inversion H; subst.
+      apply H2. cbn [List.length] in Hl. cbn [List.length]. lia.
+Qed.
+
+Theorem rejected_all_preserves_gen fl c n c' es :
+  ingest fl c n = (c', GErrs es) ->
+  List.length es = List.length (n_upd n) -> n_del n = [] -> dump c' = dump c.
+Proof.
+  unfold ingest. destruct (n_prefix n) as [pr|]; [|intros H; discriminate H].
+  destruct (assoc (gp_target pr) c) as [t|] eqn:Ea; [|intros H; discriminate H].
+  destruct (target_gnmi_update fl t n) as [t' r] eqn:Et. cbn. intros H Hl Hd; inversion H; subst.
+  apply dump_aset with (t := t); auto. eapply target_errs_all; eauto.
+Qed.
+
+(** * K_P is sound: an empty verdict means the property holds of the observations *)
+
+(** the property, on what the implementation was seen to do along an ingest case *)
+Fixpoint ingest_obs_ok (before : tdump) (steps : list (iop * iobs)) : Prop :=
+  match steps with
+  | [] => True
+  | (IMsg n, OIngest r od) :: rest =>
+      let d := match od with Some x => x | None => before end in
+      r <> RPanic /\ (all_rejected n r = true -> tdump_eqb d before = true) /\ ingest_obs_ok d rest
+  | (IRefresh, ORefresh p) :: rest => p = false /\ ingest_obs_ok before rest
+  | _ :: _ => False
+  end.
+
+Lemma app_nil_inv {A} (a b : list A) : a ++ b = [] -> a = [] /\ b = [].
+Proof. destruct a; cbn; [auto|discriminate]. Qed.
+
+Lemma check_ingest_sound steps : forall i c before,
+  check_ingest i c before steps = [] -> ingest_obs_ok before steps.
+Proof.
+  induction steps as [|[o b] steps IH]; intros i c before; cbn [check_ingest ingest_obs_ok]; [auto|].
+  destruct o as [n|]; destruct b as [r od|p]; try discriminate.
+  - destruct (ingest cur_flags c n) as [c' g].
+    intros H. apply app_nil_inv in H as [_ H]. apply app_nil_inv in H as [H2 H3].
+    split; [|split].
+    + intros ->. cbn in H2. destruct (ingest_known before n); discriminate H2.
+    + intros Hall. destruct r; try (cbn in Hall; discriminate Hall);
+        rewrite Hall in H2; cbn [andb] in H2;
+        (destruct (tdump_eqb _ before); [reflexivity|discriminate H2]).
+    + eapply IH; eauto.
+  - intros H. apply app_nil_inv in H as [_ H]. apply app_nil_inv in H as [H2 H3].
+    split; [|eapply IH; eauto].
+    destruct p; [|reflexivity]. cbn in H2. destruct (class_refresh before); discriminate H2.
+Qed.
+
+(** the property on the observations of the other three kinds of case: no panic
+    (for Subscribe: unless the environment assumption is violated) *)
+Definition case_obs_ok (c : case) : Prop :=
+  match c with
+  | CIngest targets steps =>
+      if existsb (String.eqb "") targets then True    (* outside the property *)
+      else ingest_obs_ok (model_dump (new_cstate targets)) steps
+  | CSub e _ o _ _ => se_has_peer e = true -> o <> OPanic
+  | CRecv _ _ _ o _ _ => o <> OPanic
+  | CCli _ _ _ _ _ o _ => o <> OPanic
+  | CMgr rs => Forall (fun ro => fst (snd ro) <> OPanic) rs
+  end.
+
+Theorem check_case_sound c : check_case c = [] -> case_obs_ok c.
+Proof.
+  destruct c as [targets steps|e f o code synced|jvalid qt rs o evs leaves|jvalid dt qt with_ts rs o recs|mrs];
+    cbn [check_case case_obs_ok].
+  - destruct (existsb (String.eqb "") targets) eqn:Et; [|apply check_ingest_sound].
+    exact (fun _ => I).
+  - intros H Hp ->. apply app_nil_inv in H as [_ H]. rewrite Hp in H. discriminate H.
+  - destruct (ClientRecvModel.run (jv_of jvalid) qt false rs) as [[mevs rest] mo].
+    intros H ->. apply app_nil_inv in H as [_ H]. discriminate H.
+  - destruct (query_display defect_C12_4 (jv_of jvalid) dt qt with_ts rs) as [mrecs mo].
+    intros H ->. apply app_nil_inv in H as [_ H]. cbn in H. destruct (class_cli dt rs); discriminate H.
+  - generalize 0%nat. induction mrs as [|[r [o code]] mrs IH]; intros i; cbn [check_mgr]; [constructor|].
+    intros H. apply app_nil_inv in H as [_ H]. apply app_nil_inv in H as [H2 H3].
+    constructor; [|eapply IH; eauto]. cbn. intros ->. discriminate H2.
+Qed.
+
+Lemma manager_handle_total r w : manager_handle r <> Panic w.
+Proof. destruct r; discriminate. Qed.
+
+(** the hypothesis "no target under the empty name" of [st_wf] is needed:
+    joinPrefixAndPath slices [p[1:]] of an empty slice *)
+Lemma ingest_needs_named_targets :
+  exists n w, wire_notif n = true /\ snd (ingest fixed_flags (new_cstate [""]) n) = GPanic w.
+Proof.
+  exists (Notif 1 (Some (GPath "" "" [] [])) [Upd None (TVInt 1)] [] false), panic_join.
+  split; reflexivity.
+Qed.
